@@ -184,6 +184,7 @@ def check(ctx):
     for _sfn in ("sign::sig_structure_data", "mac::mac_structure_data", "encrypt::enc_structure_data"):
         S.check_context_strings(ctx.under("R-6", "layout"), "R-1", _sfn)
         S.check_assembly(ctx.under("R-6", "layout"), "R-2", _sfn)
+    check_frozen_inputs(ctx, "R-7")
     # R-5
     statics = prog.d.get("statics", [])
     ctx.ob("R-5", "no-statics", not statics, "the crate defines no static items", detail={"statics": statics})
@@ -201,4 +202,37 @@ def check(ctx):
     ctx.ob("R-5", "no-interior-mutability", not bad, "no Cell/RefCell/Mutex/atomic appears in any type or local of the crate",
            detail={"found": sorted(bad)[:10]})
     ctx.floor("R-1", "helper families", len(FAMILIES), 9)
+
+def check_frozen_inputs(ctx, R):
+    """"... after its protected headers and payload were set": what was signed / MACed / used as AAD is what gets serialised only
+    if no later builder call edits it.  On the net effect of every method of the carrier builders (all crate-local callees
+    expanded): the `protected` header and the `payload` are written by the setter of that name and by nothing else - not by
+    `unprotected()`, not by a creating method after it computed its input, not through the signer handed to `add_*signature`;
+    the signers already pushed are only ever appended to."""
+    from rules import c19
+    from lib.prov import subterms as _sub
+    prog = ctx.prog.view("all")
+    n = 0
+    for bname, methods in sorted(c19.builders(prog).items()):
+        if not bname.startswith(("sign::", "mac::", "encrypt::")):
+            continue
+        for f in sorted(methods, key=lambda x: x.key):
+            n += 1
+            bad = []
+            for e in c19.norm_effects(Prov(f)):
+                place = e[1] if e[0] == "assign" else e[2]
+                flds = [t[2] for t in _sub(place) if isinstance(t, tuple) and t and t[0] == "field"]
+                for fld in ("protected", "payload"):
+                    if fld in flds and f.name != fld:
+                        bad.append("%s %s" % (e[0] if e[0] == "assign" else e[1], show(place)[:80]))
+                if "signatures" in flds and not (e[0] == "call" and e[1].endswith("::push") and flds[-1:] == ["signatures"] or
+                                                 (e[0] == "call" and e[1].endswith("::push") and flds and flds[0] == "signatures")):
+                    bad.append("%s %s" % (e[0] if e[0] == "assign" else e[1], show(place)[:80]))
+            ctx.ob(R, "frozen:%s" % f.key, not bad,
+                   "%s leaves the protected header, the payload and the signers already added as they were" % f.key if f.name not in ("protected", "payload")
+                   else "%s writes only its own field among protected header / payload / signers" % f.key,
+                   where=f.span, detail={"writes": bad})
+    ctx.floor(R, "carrier builder methods", n, 60)
+
 META["decides"] += ' R-6 also re-checks the layout of the three structures (context strings, array assembly through the one serialiser: C03-C05 R-1 / R-2), on which the clause "any change of AAD / payload changes the bytes" rests.'
+META["decides"] += " R-7 (inputs frozen once set): on the net effect of every method of the eight carrier builders, `protected` and `payload` are written only by the setter of that name, and signers already added are only appended to."
